@@ -21,14 +21,14 @@ BOUNDS = {
     "thorough": "quick + abcdt/explicit/w2, abcu w3 on 3 leaves, d3 chains, overrides everywhere",
 }
 
-FORMS = ("int", "np", "tuple", "Bounds")
+FORMS = ("int", "np", "tuple", "Bounds")   # "np" alternates numpy.int64 / numpy.int32
 
 
 def _val(v, form):
     if form == "int":
         return v
     if form == "np":
-        return np.int64(v)
+        return np.int64(v) if v % 2 == 0 else np.int32(v)
     if form == "tuple":
         return (v, v)
     return puan.Bounds(v, v)
